@@ -126,11 +126,16 @@ class Scratch:
         os.makedirs(os.path.join(self.w, ".cargo"), exist_ok=True)
         open(os.path.join(self.w, ".cargo", "config.toml"), "w").write("[net]\noffline = true\n")
 
-    def overlay(self, overlay):
-        """overlay: module with MODULES (file, line) and INJECT (file, anchor, lines)."""
+    def overlay(self, overlay, harness_files):
+        """overlay: module with MODULES (file, line) and INJECT (file, anchor, lines).
+        Only the harness modules listed by the property (plus verif_spec) are compiled in, so that a
+        compile problem in one property's harness cannot make another property undecided."""
         originals = {}
         edits = {}
-        for inj in overlay.INJECT:
+        wanted = set(harness_files) | {"verif_spec.rs"}
+        modules = [m for m in overlay.MODULES if m["src"] in wanted]
+        injects = [i for i in overlay.INJECT if i.get("needs") is None or i["needs"] in wanted]
+        for inj in injects:
             p = os.path.join(self.w, inj["file"])
             if inj["file"] not in edits:
                 txt = open(p).read()
@@ -147,7 +152,7 @@ class Scratch:
             indent = re.match(r"\s*", lines[k]).group(0)
             new = [indent + l + " " + MARK for l in inj["lines"]]
             edits[inj["file"]] = lines[:k] + new + lines[k:]
-        for m in overlay.MODULES:
+        for m in modules:
             p = os.path.join(self.w, m["file"])
             if m["file"] not in edits:
                 txt = open(p).read()
@@ -169,7 +174,7 @@ class Scratch:
         hd = os.path.join(self.w, "src", "verif")
         os.makedirs(hd, exist_ok=True)
         for f in os.listdir(os.path.join(VERIF, "harness")):
-            if f.endswith(".rs"):
+            if f.endswith(".rs") and f in wanted:
                 shutil.copy(os.path.join(VERIF, "harness", f), os.path.join(hd, f))
 
 
@@ -177,6 +182,7 @@ class Undecided(Exception):
     pass
 
 
+REPLAY_LOCK = threading.Lock()
 _children = set()
 _children_lock = threading.Lock()
 
@@ -408,7 +414,7 @@ class Runner:
 
     # ----------------------------------------------------------------------------------------
     def replay(self, unit, r, td):
-        """Counterexample -> concrete playback test -> native run on the real code (real libm)."""
+        """Phase 1 (in the worker): ask the verifier for concrete counterexamples (playback tests)."""
         os.makedirs(os.path.join(VERIF, "replays"), exist_ok=True)
         rp = os.path.join(VERIF, "replays", "%s-%s-%d.txt" % (self.prop, unit.name, int(time.time())))
         r.replay = rp
@@ -422,56 +428,69 @@ class Runner:
                           max(unit.mem_gb * 3, 12), lp)
         text = open(lp, errors="replace").read()
         tests = []
+        seen = set()
         for blk in re.findall(r"```\n(.*?)```", text, re.S):
             if "concrete_playback_run" not in blk or "Check for `cover`" in blk:
                 continue
             k = blk.find("#[test]")
             if k >= 0:
                 what = " ".join(blk[:k].replace("///", " ").split())
-                tests.append("// " + what + "\n" + blk[k:])
+                if unit.kind == "must_panic" and "MUST_PANIC" not in what and any(re.search(p_, what) for p_ in unit.allowed_fail):
+                    continue  # the documented guard firing is the expected behaviour, not a counterexample
+                m = re.search(r"fn (kani_concrete_playback_\w+)", blk)
+                if m and m.group(1) not in seen:
+                    seen.add(m.group(1))
+                    tests.append("// " + what + "\n" + blk[k:])
         r.reproduced = False
-        native_out = ""
-        if tests and not why:
-            # append the tests to the harness module of the unit and run them natively
+        r._replay_head = out
+        r._replay_tests = tests
+        r._replay_why = why
+
+    def replay_native(self, r):
+        """Phase 2 (sequential, after all units): run the playback tests natively on the real code."""
+        unit = r.unit
+        out = r._replay_head
+        tests = r._replay_tests
+        if tests and getattr(r, "_skip_native", False):
+            out.append("")
+            out.append("counterexample(s) from the verifier (native run skipped: more than VERIF_MAX_REPLAYS violations in this run):")
+            out += tests
+        elif tests:
             mod_file = self.harness_file(unit)
-            if mod_file:
-                bak = open(mod_file).read()
-                uniq = []
-                seen = set()
-                for t in tests:
-                    m = re.search(r"fn (kani_concrete_playback_\w+)", t)
-                    if m and m.group(1) not in seen:
-                        seen.add(m.group(1))
-                        uniq.append(t)
-                open(mod_file, "w").write(bak + "\n" + "\n".join(uniq) + "\n")
-                lp2 = os.path.join(self.logs, unit.name + ".native.log")
-                env = base_env(td + "-pb")
-                env["RUST_BACKTRACE"] = "0"
-                rc2, why2 = run_cmd(["cargo", "kani", "playback", "-Z", "concrete-playback", "--", "kani_concrete_playback"],
-                                    self.s.w, env, 900, 16, lp2)
-                native_out = open(lp2, errors="replace").read()
-                open(mod_file, "w").write(bak)
-                shutil.rmtree(td + "-pb", ignore_errors=True)
-                m = re.search(r"test result: (\w+)\. (\d+) passed; (\d+) failed", native_out)
-                if m and int(m.group(3)) > 0:
-                    r.reproduced = True
-                out.append("")
-                out.append("counterexample(s) from the verifier, as concrete playback tests:")
-                out += uniq
-                out.append("")
-                out.append("native replay on the real code (cargo kani playback; real libm, stubs inactive, debug profile):")
-                keep = [l for l in native_out.split("\n") if re.search(r"panicked|assert|left:|right:|test result|^test |MUST_PANIC|VERIF", l)]
-                out += keep[:80]
-                out.append("reproduced natively: %s" % r.reproduced)
+            bak = open(mod_file).read()
+            open(mod_file, "w").write(bak + "\n" + "\n".join(tests) + "\n")
+            lp2 = os.path.join(self.logs, unit.name + ".native.log")
+            td = os.path.join(self.s.root, "td-native")
+            env = base_env(td)
+            env["RUST_BACKTRACE"] = "0"
+            rc2, why2 = run_cmd(["cargo", "kani", "playback", "-Z", "concrete-playback", "--", "kani_concrete_playback"],
+                                self.s.w, env, 1800, 16, lp2)
+            native_out = open(lp2, errors="replace").read()
+            open(mod_file, "w").write(bak)
+            if why2:
+                out.append("native replay did not finish: " + why2)
+            k0 = native_out.find("\nrunning ")
+            native_out = native_out[k0:] if k0 >= 0 else native_out[-3000:]
+            m = re.search(r"test result: (\w+)\. (\d+) passed; (\d+) failed", native_out)
+            if m and int(m.group(3)) > 0:
+                r.reproduced = True
+            out.append("")
+            out.append("counterexample(s) from the verifier, as concrete playback tests:")
+            out += tests
+            out.append("")
+            out.append("native replay on the real code (cargo kani playback; real libm, stubs inactive, debug profile):")
+            keep = [l for l in native_out.split("\n") if l.strip() and not l.startswith("note:") and "RUST_BACKTRACE" not in l]
+            out += keep[:120]
+            out.append("reproduced natively: %s" % r.reproduced)
         else:
             out.append("")
-            out.append("no concrete counterexample could be extracted (%s)" % (why or "verifier printed none"))
+            out.append("no concrete counterexample could be extracted (%s)" % (r._replay_why or "verifier printed none"))
         if not r.reproduced:
             out.append("")
             out.append("no-failing-input-found: the obligation is discharged on the unchanged tree and fails on this tree;")
             out.append("verifier output (tail):")
             out += open(r.log_path, errors="replace").read().split("\n")[-60:]
-        open(rp, "w").write("\n".join(out) + "\n")
+        open(r.replay, "w").write("\n".join(out) + "\n")
 
     def harness_file(self, unit):
         # harness a::b::verif_x::name lives in src/verif/verif_x.rs
@@ -599,9 +618,18 @@ def main(argv):
     fatal = None
     try:
         sc.snapshot()
-        sc.overlay(overlay)
+        sc.overlay(overlay, getattr(pm, 'HARNESS_FILES', []))
         runner = Runner(sc, prop, tier)
         results = schedule(runner, units, a.jobs)
+        todo = [r for r in results if r.status == "violation" and r.replay]
+        # native replays: sequential, at most VERIF_MAX_REPLAYS (default 3) per run, the others keep the verifier output
+        for k, r in enumerate(todo):
+            if k < int(os.environ.get("VERIF_MAX_REPLAYS", "3")):
+                log("  native replay of %s ..." % r.unit.name)
+                runner.replay_native(r)
+            else:
+                r._skip_native = True
+                runner.replay_native(r)
     except Undecided as e:
         fatal = str(e)
         log("UNDECIDED: %s" % fatal)
